@@ -359,6 +359,8 @@ class KexNISTP521(KexDH):
 
 
 class KexGroupExchange(KexDH):
+    MAX_MODULUS_BITS = 8192  # The largest group-exchange modulus that is tested.
+
     def __init__(self, out: 'OutputBuffer', classname: str, hash_alg: str) -> None:
         super(KexGroupExchange, self).__init__(out, classname, hash_alg, 0, 0)
 
@@ -404,6 +406,10 @@ class KexGroupExchange(KexDH):
             ptr += g_len
         except struct.error:
             raise KexDHException("Error while parsing modulus and generator during GEX init: %s" % str(traceback.format_exc())) from None
+
+        # The time needed for the exchange below grows rapidly with the size of the modulus, which the server chooses.  OpenSSH does not accept groups larger than 8192 bits (DH_GRP_MAX) either.
+        if p.bit_length() > KexGroupExchange.MAX_MODULUS_BITS:
+            raise KexDHException('Server sent a %d-bit modulus during GEX init; moduli above %d bits are not tested.' % (p.bit_length(), KexGroupExchange.MAX_MODULUS_BITS))
 
         # Now that we got the generator and modulus, perform the DH exchange
         # like usual.
